@@ -29,7 +29,7 @@ pub struct NetCase {
     pub legacy: bool,
 }
 
-pub const N_FAULTS: u16 = 46;
+pub const N_FAULTS: u16 = 50;
 
 fn build_valid(case: &NetCase) -> Vec<Link> {
     let mut links = case.skeleton.build().links;
@@ -371,6 +371,39 @@ fn apply_fault(links: &mut Vec<Link>, f: u16, k: usize, aux: usize) -> (bool, bo
             s.speed_params = vec![SpeedParam { limit_val, limit_type, compare_type: CompareType::TpGreaterThanRp }];
             (true, true, "speed-param-malformed")
         }
+        47..=50 => {
+            // coincident switch points and nothing else: every reference stays reciprocal.  A
+            // link A that diverges (next B, alternate next C) is found from k onwards; a new
+            // link D (no flip, no predecessor) is appended whose next is the target T (B or C),
+            // and T names D and A as its two predecessors in either order:
+            //   47: T = B, prev A, prev_alt D      48: T = B, prev D, prev_alt A
+            //   49: T = C, prev A, prev_alt D      50: T = C, prev D, prev_alt A
+            // (50 is the shape in which the coincidence is carried by the alternate reference
+            // on both sides)
+            let Some(a) = (0..n - 1).map(|d| 1 + (k - 1 + d) % (n - 1)).find(|i| links[*i].idx_next_alt.idx() != 0 && links[*i].idx_next.idx() != 0) else {
+                return (false, true, "");
+            };
+            let t = if f <= 48 { links[a].idx_next.idx() } else { links[a].idx_next_alt.idx() };
+            if links[t].idx_prev_alt.idx() != 0 || links[t].idx_prev.idx() != a {
+                return (false, true, "");
+            }
+            let mut d = links[t].clone();
+            d.idx_curr = li(n);
+            d.idx_flip = li(0);
+            d.idx_next = li(t);
+            d.idx_next_alt = li(0);
+            d.idx_prev = li(0);
+            d.idx_prev_alt = li(0);
+            d.link_idxs_lockout = vec![];
+            links.push(d);
+            if f % 2 == 1 {
+                links[t].idx_prev_alt = li(n);
+            } else {
+                links[t].idx_prev = li(n);
+                links[t].idx_prev_alt = li(a);
+            }
+            (true, true, ["coincident-switch-points-only:primary-next/alt-prev", "coincident-switch-points-only:primary-next/primary-prev-is-the-other", "coincident-switch-points-only:alt-next/alt-prev", "coincident-switch-points-only:alt-next-named-as-alt-prev"][(f - 47) as usize])
+        }
         _ => {
             if l.elevs.len() < 2 {
                 return (false, true, "");
@@ -588,7 +621,7 @@ impl Property for C16 {
     }
     crate::typed_property!(C16, NetCase);
     fn rule(&self) -> String {
-        "valid network = corridor skeleton (2-5 stages, flips, alternates, optional lockouts) dressed per link with 2-7 elevation points, 0 or 2-6 heading points, 0-3 catenary sections, single speed set or per-type map with gates; about 30 % stay valid (half of the legacy-layout cases, a fifth of the rest) and must be accepted by validate(), from_json, from_yaml and from_file(.yaml/.json) and reload equal (25 % additionally written in the legacy list-of-OldSpeedSet layout as YAML and JSON files and must load to the identical network); the others receive exactly one of 46 fault operators (dummy entry, idx_curr, flip, next/prev reciprocity, alternates, coincident switch points, references outside the network, length, elevation / heading / speed / catenary / gate faults incl. NaN and infinity) at a generated link and must come back as Err through the generated entry point (and, for legacy-layout cases, from the legacy-layout file as well) — never Ok, never an unwind. Non-trivial: any mutant, or a valid network with >= 4 links and a switch".into()
+        "valid network = corridor skeleton (2-5 stages, flips, alternates, optional lockouts) dressed per link with 2-7 elevation points, 0 or 2-6 heading points, 0-3 catenary sections, single speed set or per-type map with gates; about 30 % stay valid (half of the legacy-layout cases, a fifth of the rest) and must be accepted by validate(), from_json, from_yaml and from_file(.yaml/.json) and reload equal (25 % additionally written in the legacy list-of-OldSpeedSet layout as YAML and JSON files and must load to the identical network); the others receive exactly one of 50 fault operators (dummy entry, idx_curr, flip, next/prev reciprocity, alternates, coincident switch points, references outside the network, length, elevation / heading / speed / catenary / gate faults incl. NaN and infinity) at a generated link and must come back as Err through the generated entry point (and, for legacy-layout cases, from the legacy-layout file as well) — never Ok, never an unwind. Non-trivial: any mutant, or a valid network with >= 4 links and a switch".into()
     }
     fn assumptions(&self) -> Vec<String> {
         vec![
